@@ -24,8 +24,11 @@ THEOREMS = ['Props.C12.' + t for t in [
     'quadtree_leaf_contains_point', 'quadtree_leaf_exists', 'search_wave_fuel_suffices', 'quadtree_search_complete_partial',
     'block_at_point_spec', 'block_reported_is_in_found_column', 'block_at_point_in_layer', 'block_at_point_raised_surface',
     'block_at_point_none_outside', 'block_at_point_none_above_or_below', 'reported_block_contains_point_partial',
-    'containing_block_is_the_reported_one']]
-LEVEL_TEXT = ('Proof (partial): 24 Lean theorems, no sorry, about an exact-rational executable model of in_polygon / rectangles / quadtree / '
+    'containing_block_is_the_reported_one',
+    'track_points_on_line', 'track_points_on_column', 'track_sorted_by_distance', 'track_no_column_twice',
+    'track_abut_at_shared_edge', 'track_lengths_partial', 'track_lists_crossed_column_partial',
+    'track_merges_only_close_crossings', 'track_crossings_direction_independent', 'track_reverse_partial']]
+LEVEL_TEXT = ('Proof (partial): 35 Lean theorems, no sorry, about an exact-rational executable model of in_polygon / rectangles / quadtree / '
               'column_containing_point (all search aids) / layer and block location: every reported column contains the point for every aid '
               'combination; a point outside every column gives None; in_polygon implies in-bounding-rectangle for every polygon (crossing parity, '
               'unconditional after the repair of in_polygon); under UniqueAt plain search = exhaustive search = search with any guess / bounding '
@@ -34,12 +37,29 @@ LEVEL_TEXT = ('Proof (partial): 24 Lean theorems, no sorry, about an exact-ratio
               'the reported block is characterised (layer logic, raised surface, None above/below/outside) and is the unique block containing the '
               'point at or below ground level. PARTIAL: the planar half of quadtree completeness (reachability holds when the segment centre-point stays in the domain) is not proved '
               '(false for domains with holes: witness kept as an example); block_contains_point for the reported block needs z <= ground level (the real function disagrees under a raised surface); '
-              'all column_track clauses are correspondence + exact-oracle only (executable Lean model compared with the code, no theorems).')
+              'column_track (exact-rational model Model/Track.lean): proved that every entry/exit point is on the line (parameter in the accepted '
+              '[-1e-9, 1+1e-9] band) and on an edge of / inside its column, the track is sorted by entry distance with no column twice, the '
+              'crossing of a shared edge is the same point for both columns, duplicate crossings are merged only within 1e-3 x longest side '
+              '(the repaired rule), the crossings of the reversed line are the same points; under decidable hypotheses evaluated on every '
+              'explored line: lengths non-negative and summing to at most the line length (Ordered), a column crossed twice more than the clip '
+              'tolerance apart is listed (crossedLongB, box test), the track of the reversed line is the flipped track (revHypB). NOT proved: '
+              'that consecutive entries are neighbours covering the line inside the domain (planar tessellation fact behind "segments abut" and '
+              '"lengths add up to the length inside the domain"), Cohen-Sutherland correctness, non-convex multiply crossed columns: these stay '
+              'with the correspondence facet and the exact clipping oracle.')
 LEVEL_NOTE = ('Trusted: Lean kernel (+propext, Classical.choice, Quot.sound); hand-written models Model/Locate.lean, Model/Track.lean tied to /repo by '
               'five correspondence facets on every run (exact rationals of the doubles; cases decided by less than 1e-9 relative are discarded as '
               'unstable); IEEE rounding is not modelled; Python set iteration order and numpy argsort order are modelled as list order / stable '
               'sort (no theorem depends on them); the Fraction oracle in harness/props/c12.py.')
 TECHNIQUE = 'Lean 4 proof over an executable exact-rational model of the search code + differential correspondence with the real code + exact-arithmetic oracle'
+EVIDENCE_EXTRA = {'observations': [
+    'block_contains_point inconsistency (counted, not flagged; outside the property\'s observation points): for a column whose surface is raised '
+    'above ground level and ground < z <= surface, block_name_containing_point reports the top block (correct) while block_contains_point(that '
+    'block, pos) is False (it only tests layer.bottom <= z <= layer.top). Counter: input_distribution["block_contains_point:false-for-reported-'
+    'block-above-ground-level"]. The Lean theorem reported_block_contains_point_partial carries the hypothesis z <= ground level for this reason.',
+    'for a surface lowered into a layer both block functions treat the air between the surface and the layer top as inside the surface block '
+    '(input_distribution["elevation:airgap"]); left to the correspondence.',
+    'quadtree search misses a column on domains with holes / islands (outside the listed geometry classes): input_distribution["quadtree-search-'
+    'misses-column(...)"]; witness in the fixed corpus and as a Lean example.']}
 ASSUMPTIONS = [
     'arithmetic is exact in the model; the code computes in IEEE doubles: inputs are generated on dyadic lattices (or passed as the exact rationals of the doubles) and points within 1e-6 x longest side of a column edge, elevations within 1e-9 of a layer boundary/surface and lines along a column edge are excluded, as in the property text',
     'columns have at least one node and numeric surfaces; geometries have at least two layers (index 0 = atmosphere layer)',
@@ -1017,6 +1037,8 @@ def gen_lines(gc, rng, n):
             a, b, kind = rp(0.3), rp(0.3), 'any-any'
         if a != b:
             out.append((kind, a, b))
+            if rng.random() < 0.25:
+                out.append((kind + '(reversed)', b, a))
     return out
 
 
@@ -1159,12 +1181,30 @@ def run_tracks(ctx, res, gc, rng, n, fixed_lines=None):
         for key, text in oracle_track(gc, a, b, track, exact, flags):
             vio(res, key, '%s: line %r -> %r: %s' % (gc.label, a, b, text), dict(kind='track', recipe=gc.recipe, a=list(a), b=list(b)))
         lines.append('trk %s %s' % (ep(FP(a)), ep(FP(b))))
+        lines.append('trkh %s %s' % (ep(FP(a)), ep(FP(b))))
         cases.append((a, b, track))
     if ctx.model_ok and cases:
         out = core.run_driver('drv_c12', lines)
         if out[0] != 'ok':
             raise RuntimeError('driver rejected geometry: ' + out[0])
-        for (a, b, track), reply in zip(cases, out[1:]):
+        for (a, b, track), reply, hyp in zip(cases, out[1::2], out[2::2]):
+            # hypotheses of the track theorems, evaluated by the model on this line
+            w = hyp.split()
+            for name, val in (('RevHyp (track_reverse_partial): not within one column, end points in at most one column, box test symmetric, every boxed column crossed 0, 1 or 2-far-apart times', w[5]),
+                              ('notInOneB (track_lists_crossed_column_partial): the line is not within one column', w[0]),
+                              ('Ordered 0 (track_lengths_partial): entries run forwards along the line without overlap', w[6])):
+                if val in '01':
+                    res.hyp.setdefault(name, [0, 0])
+                    res.hyp[name][1] += 1
+                    res.hyp[name][0] += int(val)
+            hn = 'crossedLongB (track_lists_crossed_column_partial): columns passing the box test that are crossed exactly twice more than the clip tolerance apart / all columns passing the box test'
+            res.hyp.setdefault(hn, [0, 0])
+            res.hyp[hn][0] += int(w[9])
+            res.hyp[hn][1] += int(w[7])
+            res.count('track-boxed-columns:not-crossed', int(w[8]))
+            res.count('track-boxed-columns:crossed-twice-far-apart', int(w[9]))
+            res.count('track-boxed-columns:crossed-once', int(w[10]))
+            res.count('track-boxed-columns:other(short clip, vertex, non-convex)', int(w[11]))
             if reply.startswith('unstable'):
                 res.unstable += 1
                 res.count('track-model-unstable:' + reply.split()[1])
